@@ -5,7 +5,7 @@
 (* arguments (names with their folded key), its result, and the complete   *)
 (* list after it: "list":[[name,key,id,isnull]..].                         *)
 (***************************************************************************)
-EXTENDS Collections, Json, TLC
+EXTENDS Collections, Json, TLC, Held
 VARIABLE l
 Trace == ndJsonDeserialize("trace.ndjson")
 F(ok, name) == IF ok THEN "" ELSE name \o "; "
@@ -36,7 +36,7 @@ Step ==
   /\ LET e == Trace[l] IN
      /\ Apply(e)
      /\ LET f == RetFails(e) \o F(e.list = items', "the collection is not the ordered list the operations describe") IN
-        f = "" \/ PrintT("VERIF-FAIL " \o ToString(l) \o " " \o f)
+        Report(l, f, Trace[l])
 Spec == Init /\ [][Step]_<<l, items>>
 Accepted == TLCGet("stats").diameter - 1 = Len(Trace)
 =============================================================================
